@@ -369,7 +369,7 @@ def _run_res(item):
                 for (what_, hs_, _i) in handles:
                     for h_ in hs_:
                         if what_ == "m":
-                            _ = (h_.raw_measurement_outcome, h_.generation_duration, h_.raw_bell_state)
+                            _ = [getattr(h_, f_).value for f_ in ("raw_measurement_outcome", "generation_duration", "raw_bell_state", "remote_node_id")]
                 first_run = len(conn.link.log)
                 for r, sock in zip(c["reqs"], socks):
                     if r["role"] == "recv":
